@@ -271,8 +271,10 @@ fn apply(tx: &mut Transaction, a: &Act) -> Option<String> {
 }
 
 pub struct TxModel {
-    pub max_n: usize,
-    pub operands: u8,
+    pub max_in: usize,
+    pub max_out: usize,
+    pub operands_in: u8,
+    pub operands_out: u8,
     pub ints: Vec<u32>,
     pub suppressed: BTreeSet<String>,
     pub observer_transitions: AtomicU64,
@@ -328,37 +330,37 @@ impl Model for TxModel {
             }
         }
         // ordered simplest-first
-        if ni < self.max_n {
-            for k in 0..self.operands {
+        if ni < self.max_in {
+            for k in 0..self.operands_in {
                 out.push(Act::AddIn(k));
             }
         }
-        if no < self.max_n {
-            for k in 0..self.operands {
+        if no < self.max_out {
+            for k in 0..self.operands_out {
                 out.push(Act::AddOut(k));
             }
         }
         // plural adders: one element per call over every operand, two elements per call over the first three operand kinds
-        if ni < self.max_n {
-            for k in 0..self.operands {
+        if ni < self.max_in {
+            for k in 0..self.operands_in {
                 out.push(Act::AddIns1(k));
             }
         }
-        if no < self.max_n {
-            for k in 0..self.operands {
+        if no < self.max_out {
+            for k in 0..self.operands_out {
                 out.push(Act::AddOuts1(k));
             }
         }
-        if ni + 2 <= self.max_n {
-            for a in 0..3u8 {
-                for b in 0..3u8 {
+        if ni + 2 <= self.max_in {
+            for a in 0..3u8.min(self.operands_in) {
+                for b in 0..3u8.min(self.operands_in) {
                     out.push(Act::AddIns(a, b));
                 }
             }
         }
-        if no + 2 <= self.max_n {
-            for a in 0..3u8 {
-                for b in 0..3u8 {
+        if no + 2 <= self.max_out {
+            for a in 0..3u8.min(self.operands_out) {
+                for b in 0..3u8.min(self.operands_out) {
                     out.push(Act::AddOuts(a, b));
                 }
             }
@@ -377,25 +379,25 @@ impl Model for TxModel {
             }
         }
         for i in 0..ni {
-            for k in 0..self.operands {
+            for k in 0..self.operands_in {
                 out.push(Act::SetIn(i, k));
             }
         }
         for i in 0..no {
-            for k in 0..self.operands {
+            for k in 0..self.operands_out {
                 out.push(Act::SetOut(i, k));
             }
         }
-        if ni < self.max_n {
-            for k in 0..self.operands {
+        if ni < self.max_in {
+            for k in 0..self.operands_in {
                 out.push(Act::PrependIn(k));
                 for i in 0..=ni {
                     out.push(Act::InsertIn(i, k));
                 }
             }
         }
-        if no < self.max_n {
-            for k in 0..self.operands {
+        if no < self.max_out {
+            for k in 0..self.operands_out {
                 out.push(Act::PrependOut(k));
                 for i in 0..=no {
                     out.push(Act::InsertOut(i, k));
@@ -433,10 +435,28 @@ impl Model for TxModel {
     }
 }
 
-fn model(tier: Tier, suppressed: BTreeSet<String>) -> TxModel {
+/// (name, max inputs, max outputs, input operands, output operands)
+type Cfg = (&'static str, usize, usize, u8, u8);
+
+/// Quick: one graph, at most 2 inputs and 2 outputs over all six operand kinds. Thorough: that graph, a 3 x 3 graph over three operands per side, and two deeper ones —
+/// at most 3 inputs over all six input operands with at most one output, and the mirror image. The input-side slots
+/// (hashPrevouts, hashSequence) and the output-side slot (hashOutputs) are filled and invalidated by disjoint sets of
+/// actions, which is why the deep side is crossed with a shallow other side instead of the full 3 x 3 product (that
+/// product has several million states and did not finish in 200 CPU-minutes).
+fn configs(tier: Tier) -> Vec<Cfg> {
+    if tier.is_thorough() {
+        vec![("2x2", 2, 2, 6, 6), ("3-inputs", 3, 1, 6, 2), ("3-outputs", 1, 3, 2, 6), ("3x3-three-operands", 3, 3, 3, 3)]
+    } else {
+        vec![("2x2", 2, 2, 6, 6)]
+    }
+}
+
+fn model(tier: Tier, suppressed: BTreeSet<String>, cfg: Cfg) -> TxModel {
     TxModel {
-        max_n: if tier.is_thorough() { 3 } else { 2 },
-        operands: 6,
+        max_in: cfg.1,
+        max_out: cfg.2,
+        operands_in: cfg.3,
+        operands_out: cfg.4,
         ints: if tier.is_thorough() { vec![1, 2, 0x01020304] } else { vec![1, 2] },
         suppressed,
         observer_transitions: AtomicU64::new(0),
@@ -453,8 +473,8 @@ struct RunStats {
     discoveries: Vec<(String, Vec<Act>)>,
 }
 
-fn run_once(ctx: &Ctx, suppressed: BTreeSet<String>) -> RunStats {
-    let m = model(ctx.tier, suppressed);
+fn run_once(ctx: &Ctx, suppressed: BTreeSet<String>, cfg: Cfg) -> RunStats {
+    let m = model(ctx.tier, suppressed, cfg);
     let checker = m.checker().threads(ctx.threads).spawn_bfs().join();
     let mut discoveries = vec![];
     for (_name, path) in checker.discoveries() {
@@ -481,28 +501,39 @@ fn run(ctx: &Ctx) -> Report {
     let known = crate::findings::load(&std::env::var("VERIF_FINDINGS").unwrap_or_else(|_| "/verif/known_findings.json".into())).unwrap_or_default();
     let mut suppressed: BTreeSet<String> = known.iter().filter(|f| f.property == "C04" && f.status == "open").map(|f| f.key.clone()).collect();
     let mut all_keys: BTreeMap<String, (u64, Option<Vec<Act>>)> = BTreeMap::new();
-    let mut stats = run_once(ctx, suppressed.clone());
-    // iterate: every discovered key gets its own shortest path; then it is suppressed and the search repeated
-    for _round in 0..12 {
-        for (k, n) in &stats.keys {
-            all_keys.entry(k.clone()).or_insert((*n, None)).0 = *n;
+    let mut total = RunStats { unique: 0, generated: 0, depth: 0, observers: 0, keys: BTreeMap::new(), discoveries: vec![] };
+    let mut second_total = 0usize;
+    for cfg in configs(ctx.tier) {
+        let mut stats = run_once(ctx, suppressed.clone(), cfg);
+        // iterate: every discovered key gets its own shortest path; then it is suppressed and the search repeated
+        for _round in 0..12 {
+            for (k, n) in &stats.keys {
+                all_keys.entry(k.clone()).or_insert((*n, None)).0 = *n;
+            }
+            if stats.discoveries.is_empty() {
+                break;
+            }
+            for (k, acts) in &stats.discoveries {
+                let acts = &minimise(k, acts.clone());
+                all_keys.entry(k.clone()).or_insert((1, None)).1 = Some(acts.clone());
+                suppressed.insert(k.clone());
+            }
+            stats = run_once(ctx, suppressed.clone(), cfg);
         }
-        if stats.discoveries.is_empty() {
-            break;
+        // second complete run: parallel BFS must report the same unique-state count
+        let again = run_once(ctx, suppressed.clone(), cfg);
+        if again.unique != stats.unique {
+            crate::out::line(&format!("MACHINERY-ERROR: two complete searches of graph {} disagree on the number of unique states ({} vs {})", cfg.0, stats.unique, again.unique));
+            std::process::exit(2);
         }
-        for (k, acts) in &stats.discoveries {
-            let acts = &minimise(k, acts.clone());
-            all_keys.entry(k.clone()).or_insert((1, None)).1 = Some(acts.clone());
-            suppressed.insert(k.clone());
-        }
-        stats = run_once(ctx, suppressed.clone());
+        r.spaces.push(json!({"space": format!("reachable-graph/{}", cfg.0), "max_inputs": cfg.1, "max_outputs": cfg.2, "input_operands": cfg.3, "output_operands": cfg.4, "unique_states": stats.unique, "generated_states": stats.generated, "max_depth": stats.depth, "complete": true}));
+        total.unique += stats.unique;
+        total.generated += stats.generated;
+        total.depth = total.depth.max(stats.depth);
+        total.observers += stats.observers;
+        second_total += again.unique;
     }
-    // second complete run: parallel BFS must report the same unique-state count
-    let again = run_once(ctx, suppressed.clone());
-    if again.unique != stats.unique {
-        crate::out::line(&format!("MACHINERY-ERROR: two complete searches disagree on the number of unique states ({} vs {})", stats.unique, again.unique));
-        std::process::exit(2);
-    }
+    let stats = total;
     for (k, (n, acts)) in &all_keys {
         let case = json!({"actions": acts, "tier": ctx.tier.name()});
         r.acc.violate(k.clone(), 0, case, format!("{} transitions end in this verdict; shortest history: {:?}", n, acts));
@@ -517,10 +548,9 @@ fn run(ctx: &Ctx) -> Report {
     r.acc.outcome(&(stats.unique as u64).to_le_bytes());
     r.acc.bump("max_depth", stats.depth as u64);
     r.acc.bump("observer_transitions_compared_with_fresh_copy", stats.observers);
-    r.acc.bump("unique_states_second_run", again.unique as u64);
+    r.acc.bump("unique_states_second_run", second_total as u64);
     r.acc.sample(0, || json!({"history": [Act::AddIn(0), Act::AddOut(1), Act::Preimage(0x41, 0), Act::SetOut(0, 0), Act::Preimage(0x41, 0)], "note": "example of an explored history: fill all cache slots, replace an output, observe again"}));
-    r.bounds = json!({"max_inputs": if ctx.tier.is_thorough() {3} else {2}, "max_outputs": if ctx.tier.is_thorough() {3} else {2}, "operands": "6 inputs (two unrelated; four that differ from operand 0 in sequence only / vout only / unlocking script only / sequence and script) and 6 outputs (two unrelated, one differing only in value, one only in script, two more unrelated)", "alternative_constructors": "from the empty object: parsed from a non-canonical wire encoding, JSON round trip, compact round trip, from_hex", "observer_flags": OBS_FLAGS.iter().map(|f| format!("0x{:02x}", f)).collect::<Vec<_>>(), "search": "fixpoint (all reachable states)", "history_length": "unbounded within the finite graph"});
-    r.spaces.push(json!({"space": "reachable-graph", "unique_states": stats.unique, "generated_states": stats.generated, "max_depth": stats.depth, "complete": true}));
+    r.bounds = json!({"graphs": configs(ctx.tier).iter().map(|c| format!("{}: <= {} inputs over {} operands, <= {} outputs over {} operands", c.0, c.1, c.3, c.2, c.4)).collect::<Vec<_>>(), "operands": "6 inputs (two unrelated; four that differ from operand 0 in sequence only / vout only / unlocking script only / sequence and script) and 6 outputs (two unrelated, one differing only in value, one only in script, two more unrelated)", "alternative_constructors": "from the empty object: parsed from a non-canonical wire encoding, JSON round trip, compact round trip, from_hex", "observer_flags": OBS_FLAGS.iter().map(|f| format!("0x{:02x}", f)).collect::<Vec<_>>(), "search": "fixpoint (all reachable states)", "history_length": "unbounded within the finite graph"});
     r
 }
 
@@ -541,7 +571,7 @@ fn minimise(key: &str, mut acts: Vec<Act>) -> Vec<Act> {
 }
 
 pub fn replay_actions(acts: &[Act]) -> Vec<(String, String)> {
-    let m = model(Tier::Thorough, BTreeSet::new());
+    let m = model(Tier::Thorough, BTreeSet::new(), ("replay", 3, 3, 6, 6));
     let mut s = m.init_states().remove(0);
     for (i, a) in acts.iter().enumerate() {
         s = m.step(&s, a);
